@@ -327,6 +327,28 @@ func (w *World) Break() {
 	}
 }
 
+// fund adds a finalized transaction of the given asset with one-key outputs of exactly
+// these amounts and returns their (unlocked) output records in order
+func (w *World) fund(asset crypto.Hash, amounts []*big.Int) []*uinfo {
+	tx := common.NewTransactionV5(asset)
+	tx.AddInput(randHash(w.r), 0)
+	privs := map[int][]crypto.Key{}
+	for i, a := range amounts {
+		o, p := w.scriptOutput(common.OutputTypeScript, a, 1, 1)
+		tx.Outputs = append(tx.Outputs, o)
+		privs[i] = p
+	}
+	n := len(w.utxos)
+	w.addSource(tx, true, privs, true)
+	return append([]*uinfo{}, w.utxos[n:]...)
+}
+
+func (w *World) unlockAll() {
+	for _, ui := range w.utxos {
+		ui.u.LockHash = crypto.Hash{}
+	}
+}
+
 func hexOf(b []byte) string { return hex.EncodeToString(b) }
 
 // ensurePledging makes the last node entry the pledging node of w.pledge
